@@ -941,6 +941,18 @@ impl Indexable for ast::InnerValue {
                     _ => None,
                 },
                 ast::ValueSuffix::SliceSuffix(slice_suffix) => {
+                    // an index, or the ends of a slice, are values of their own (`xs[i]`,
+                    // `xs[first...last]`)
+                    if let Some(element_list) = slice_suffix.element_list() {
+                        for element in element_list.elements() {
+                            if let Some(start) = element.start() {
+                                start.index(ctx);
+                            }
+                            if let Some(end) = element.end() {
+                                end.index(ctx);
+                            }
+                        }
+                    }
                     if slice_suffix.is_single_element() {
                         lhs_typ.element_typ()
                     } else {
